@@ -265,7 +265,7 @@ def main():
             "source_commits lists the unguarded `fix:` commits (repairs of genuine defects, see known-findings.txt), not hooks",
             "baseline_off_cmd": "cd /repo && /venv/bin/python -m pytest -ra -q -p no:cacheprovider --timeout=900",
             "source_commits": ["7959b97", "4805882", "e37d3df", "a10e77c", "7a1aae8", "844555a", "ca75464", "57ff40d", "f52464c", "a10a080",
-                               "6ee7e8d", "79c3974", "aa2fde5", "09d7498", "5e3cae8", "2c81a8c"],
+                               "6ee7e8d", "79c3974", "aa2fde5", "09d7498", "5e3cae8", "2c81a8c", "5fde2c6"],
             "add_only": True,
         },
         "engines": [
